@@ -89,11 +89,13 @@ def run_workspace(work, idx, c, exp_files, lang):
     prefix = ["--kotlin-prefix", "Pre"] if lang == "kotlin+prefix" else []
     lang = lang.split("+")[0]
     d = os.path.join(work, f"w{idx}{lang}{len(prefix)}")
-    cli.make_tree(os.path.join(d, "ws"), files)
+    # MC_C14!RootPath: the workspace may lie below directories that are called src themselves
+    ws = os.path.join(d, *{"plain": ["ws"], "under_src": ["src", "ws"], "under_src_twice": ["src", "tmp", "src", "ws"]}[c.get("root", "plain")])
+    cli.make_tree(ws, files)
     out = os.path.join(d, "out")
-    r = cli.run_cli(["-l", lang] + LANG_ARGS[lang] + prefix + ["-d", out, os.path.join(d, "ws")], timeout=20)
+    r = cli.run_cli(["-l", lang] + LANG_ARGS[lang] + prefix + ["-d", out, ws], timeout=20)
     single = os.path.join(d, "single." + common.EXT[lang])
-    r1 = cli.run_cli(["-l", lang] + LANG_ARGS[lang] + prefix + ["-o", single, os.path.join(d, "ws")], timeout=20)
+    r1 = cli.run_cli(["-l", lang] + LANG_ARGS[lang] + prefix + ["-o", single, ws], timeout=20)
     return c, lang, files, same_crate, r, r1, out, single
 
 
@@ -196,7 +198,7 @@ def run(chk):
                     if e["designated"].get(i["name"]) == f["file"] and i["name"] in f["defs"]:
                         kinds.append("own-type-imported-from-elsewhere")
         for kind in sorted(set(kinds)) or ["unclassified"]:
-            chk.mismatch(f"C14/{lang}/{c['form']}/{'renamed' if c['renamed'] else 'plain'}/{('dup-renamed' if c.get('dup_renamed') else 'dup') if c['dup'] else 'nodup'}/{kind}",
+            chk.mismatch(f"C14/{lang}/{'' if c.get('root', 'plain') == 'plain' else 'root=' + c['root'] + '/'}{c['form']}/{'renamed' if c['renamed'] else 'plain'}/{('dup-renamed' if c.get('dup_renamed') else 'dup') if c['dup'] else 'nodup'}/{kind}",
                          f"{lang}: {kind} for workspace {c}: files {fobs}", {"case": c, "lang": lang}, "Workspace!PartitionOk /\\ ImportsOk", fobs)
     chk.traces += len(events) - len(tres.bad)
     chk.extra["trace_events"] = len(events)
